@@ -42,7 +42,7 @@ pub fn variants(c: &Case) -> Variant {
     let mut g = GenCfg::full();
     g.max_stmts = 40;
     // (feature "source:imports": a project of two files with imports of every form, see c07x)
-    let prog = if c.features.iter().any(|f| f == "source:imports") { crate::props::c07x::import_pair(&c.entropy).original } else { build(&c.entropy, &g).prog };
+    let prog = if c.features.iter().any(|f| f == "source:imports") { crate::props::c07x::import_pair(&c.entropy).original } else if c.features.iter().any(|f| f == "source:type-errors") { crate::props::c07x::type_error_program(&c.entropy) } else { build(&c.entropy, &g).prog };
     let (original, _) = prog.render();
     let mut f = RandFiller::new(&c.trivia, cfg(&c.features));
     let (variant, _) = prog.render_with(&mut f);
@@ -134,6 +134,9 @@ pub fn run_check(ctx: &mut Ctx) {
     ctx.campaign_parallel("clean-domain", n, 16, || strategy(vec![]), prop, to_json);
     let n3 = ctx.tier.pick(8000, 150_000);
     ctx.campaign_parallel("imports", n3, 16, || strategy(vec!["source:imports".to_string()]), prop, to_json);
+    // programs whose diagnostics quote an expression: the quotation must not depend on the layout either
+    let n4 = ctx.tier.pick(4000, 60_000);
+    ctx.campaign_parallel("type-errors", n4, 16, || strategy(vec!["source:type-errors".to_string()]), prop, to_json);
     let n2 = ctx.tier.pick(1500, 20_000);
     ctx.campaign_parallel("feature:empty_line_comment", n2, 8, || strategy(vec!["empty_line_comment".to_string()]), prop, to_json);
     let total = ctx.evaluations.max(1);
